@@ -215,10 +215,24 @@ Definition rmode (r : rule) : Z := if r_mode r =? 0 then defaultAddressRewriteMo
 
 Lemma rmode_eq r : rmode r = eff_mode r.
 Proof.
-  unfold rmode, eff_mode, defaultAddressRewriteMode, eff_type.
+  unfold rmode, eff_mode, defaultAddressRewriteMode, eff_type. cbv zeta.
   destruct (r_mode r =? 0); [|reflexivity].
-  destruct (Z.eqb_spec (r_type r) 0) as [E|E]; [reflexivity|].
-  destruct (Z.eqb_spec (r_type r) 0); [contradiction|]. reflexivity.
+  (* independent of the shape of the translated expression: decide the comparisons, innermost first *)
+  repeat (cbv beta iota;
+          match goal with
+          | |- context [Z.eqb ?a ?b] =>
+            lazymatch a with
+            | context [Z.eqb _ _] => fail
+            | _ => lazymatch b with context [Z.eqb _ _] => fail | _ => destruct (Z.eqb_spec a b) end
+            end
+          end);
+    cbn [orb andb negb]; first [reflexivity | exfalso; lia].
+Qed.
+
+Lemma default_mode_nonzero ty : defaultAddressRewriteMode ty <> 0.
+Proof.
+  unfold defaultAddressRewriteMode. cbv zeta.
+  repeat match goal with |- context [Z.eqb ?a ?b] => destruct (Z.eqb a b) end; cbn [orb andb negb]; discriminate.
 Qed.
 
 Definition catch_ipm (r : rule) (f : bool) : ipmapping :=
@@ -1082,7 +1096,7 @@ Proof.
   destruct (match r_local r with SEmpty | SGood _ => true | _ => false end) eqn:El; [|discriminate].
   simpl. destruct (Z.eqb_spec (r_mode r) 0) as [E0|E0].
   - intros H. inversion H; subst; simpl. repeat split; auto.
-    unfold defaultAddressRewriteMode. destruct ((r_type r =? 0) || (r_type r =? 1)); discriminate.
+    apply default_mode_nonzero.
   - destruct ((r_mode r =? 1) || (r_mode r =? 2)); [|discriminate].
     intros H. inversion H; subst; simpl. repeat split; auto.
 Qed.
